@@ -211,7 +211,8 @@ class IntegrityChecker(object):
 
     @property
     def has_fluorescence(self):
-        if ("fluorescence" in self.ds
+        if ("fluorescence" in self.ds.config
+                or "trace" in self.ds
                 or "fl1_max" in self.ds
                 or "fl2_max" in self.ds
                 or "fl3_max" in self.ds):
